@@ -114,6 +114,8 @@ Variants(e) ==
   \cup { Rename(e, f, f \o "2") : f \in DOMAIN e.fields }
   \cup { [e EXCEPT !.vals[f] = AltVal(e, f)] : f \in DOMAIN e.fields }
   \cup { [e EXCEPT !.vals[f] = NilV] : f \in {"n", "q"} }
+  \* ... and a pointer to the zero value (an empty byte string, the number 0): a value, not the absence of one
+  \cup { [e EXCEPT !.vals[f] = V(0)] : f \in {"n", "q"} }
   \cup { [e EXCEPT !.vals["m"] = Ids(<<"a", "c", "b">>)] }
   \* ids that hold a comma: two lists that read the same once joined by commas, and the empty id against no id
   \cup { [e EXCEPT !.vals["m"] = Ids(<<"a,b">>)], [e EXCEPT !.vals["m"] = Ids(<<"a", "b">>)],
